@@ -139,9 +139,143 @@ async def correspond(ctx):
     ctx.stats.sample({"session_schedule": lines[0], "outcomes_and_committed_rows": impl[0]})
 
 
+class _Stub:
+    """Stands in for the builder / executor of a `DirectorHandler` (hash jobs are not run)."""
+
+    def __init__(self):
+        self.submitted = []
+        self.hash_queue = self
+        self.wake_job_loop = asyncio.Event()
+        self.deferred = []
+
+    def submit(self, path, old_hash, cause):
+        self.submitted.append(path)
+
+    async def run_promoted_hash_jobs(self, to_check, cause):
+        self.submitted.extend(to_check)
+
+    def defer(self, job_i, **kwargs):
+        self.deferred.append(job_i)
+
+
+PATHS = ["a.txt", "b.txt", "d/c.txt", "d/e.txt", "d/sub/g.txt", "out/x", "out/y", "o.bin"]
+
+
+async def handler_case(ctx, i: int):
+    """Requests of running steps through the real `DirectorHandler` coroutines (the functions the RPC
+    server invokes), many of them built to be rejected at a late stage: a rejected request must leave
+    the stored workflow exactly as it was."""
+    import contextlib
+    import os
+    import tempfile
+
+    import kdump
+    from stepup.core.director import DirectorHandler
+    from stepup.core.enums import Need
+
+    r = ctx.rng("handler", i)
+    found = []
+    cwd = os.getcwd()
+    tmp = tempfile.mkdtemp(prefix="c15-handler-")
+    os.chdir(tmp)
+    try:
+        async with contextlib.AsyncExitStack() as cm:
+            wf, sched = await cm.enter_async_context(implkit.workflow(with_scheduler=True))
+            stub = _Stub()
+
+            class Rep:
+                async def __call__(self, *a, **k):
+                    return None
+
+            handler = DirectorHandler(scheduler=sched, workflow=wf, db=wf.db, reporter=Rep(), executor=stub,
+                                      builder=stub, watcher=None, stop_event=asyncio.Event())
+            async with wf.db:
+                wf.define_step(wf.root, "./plan.py", need=Need.PLAN, _safe=True)
+            jobs = {}
+            job = await sched.pop_next_job()
+            jobs["./plan.py"] = job.job_i
+            log = []
+            for n in range(r.randint(6, 14)):
+                async with wf.db:
+                    before = kdump.dump_lines(wf)
+                label = r.choice(sorted(jobs))
+                job_i = jobs[label]
+                kind = r.choice(["define", "define", "amend", "amend", "static", "static", "glob", "hold", "release"])
+                paths = lambda k: r.sample(PATHS, r.choice(k))  # noqa: E731
+                if kind == "define":
+                    args = (f"s{r.randint(1, 5)}", paths((0, 1, 2)), sorted(set(r.sample(["V1", "V2"], r.choice((0, 1))))),
+                            paths((0, 1, 2)), paths((0, 0, 1)))
+                    call = handler.define_step(job_i, args[0], args[1], args[2], args[3], args[4], ".",
+                                               r.choice([Need.DEFAULT.value, Need.OPTIONAL.value, Need.PLAN.value]),
+                                               {}, False, None, None)
+                elif kind == "amend":
+                    args = (paths((0, 1, 2)), set(r.sample(["V1", "V2"], r.choice((0, 1)))), paths((0, 1, 2)), paths((0, 0, 1)))
+                    call = handler.amend_step(job_i, *args)
+                elif kind == "static":
+                    pats = []
+                    for pat in r.sample(["*.txt", "d/*.txt", "out/*", "d/sub/*"], r.choice((0, 1, 1, 2))):
+                        pats.append((pat, r.sample(PATHS, r.choice((0, 1, 2, 3)))))
+                    async with wf.db:
+                        products = [p for (p,) in wf.db.execute(
+                            "SELECT label FROM node JOIN file ON file.node = node.i WHERE NOT detached AND state IN (15, 16, 17, 18)")]
+                        claimed = {p for (p,) in wf.db.execute("SELECT label FROM node WHERE kind = 'file' AND NOT detached")}
+                    free = [p for p in PATHS if p not in claimed]
+                    if products and r.random() < 0.5:
+                        # the trees and files of this request are acceptable, its last pattern is not:
+                        # one of its matches is a file that a step builds
+                        pats.append((r.choice(["*", "**"]), [r.choice(products)]))
+                        args = ([], r.sample(free, min(len(free), r.choice((1, 2)))), pats)
+                    else:
+                        args = (sorted(r.sample(["d", "d/sub", "out"], r.choice((0, 0, 1, 2)))), paths((0, 1, 2)), pats)
+                    call = handler.declare_static(job_i, *args)
+                elif kind == "glob":
+                    args = (r.choice(["*.txt", "d/*", "out/*"]), {}, r.sample(PATHS, r.choice((0, 1, 2, 3))))
+                    call = handler.register_glob(job_i, *args)
+                elif kind == "hold":
+                    args = ()
+                    call = handler.hold_dispatch(job_i)
+                else:
+                    args = ()
+                    call = handler.release_dispatch(job_i)
+                err = None
+                try:
+                    await asyncio.wait_for(call, 20)
+                except Exception as exc:  # the RPC server sends any exception back to the step
+                    err = f"{type(exc).__name__}: {exc}"
+                async with wf.db:
+                    after = kdump.dump_lines(wf)
+                log.append([label, kind, repr(args)[:300], err])
+                ctx.stats.count("handler-requests:" + kind)
+                if err is not None:
+                    ctx.stats.count("handler-requests-rejected:" + kind)
+                    if after != before:
+                        found.append((f"rejected-handler-request-left-traces:{kind}",
+                                      f"the rejected {kind} request of '{label}' ({err[:120]}) changed the stored workflow",
+                                      {"changed_rows": sorted(set(after) ^ set(before))[:8], "requests": log[-10:]}))
+                        break
+                # let the build make progress so that other steps can issue requests too
+                if r.random() < 0.4:
+                    job = await sched.pop_next_job()
+                    if job is not None:
+                        async with wf.db:
+                            state = job.step.get_state().name
+                        if state == "RUNNING":
+                            jobs[job.step.label] = job.job_i
+    finally:
+        os.chdir(cwd)
+        import shutil
+
+        shutil.rmtree(tmp, ignore_errors=True)
+    return found
+
+
 async def search(ctx):
     """Oracle on the implementation alone: statements of one transaction are contiguous in the log
-    and only committed transactions appear."""
+    and only committed transactions appear; a request rejected by a real `DirectorHandler`
+    coroutine leaves no trace."""
+    for i in range(ctx.budget(120, 3000)):
+        for sig, what, detail in await handler_case(ctx, i):
+            ctx.finding(Finding(PID, sig, what, {**detail, "case": {"verif_seed": ctx.seed, "salt": "handler", "index": i}}))
     r = ctx.rng("session-oracle")
     for i in range(ctx.budget(150, 3000)):
         sched, outs, rows = await session_case(r, 3, 16)
